@@ -256,7 +256,8 @@ Adapt(t, x, orig, sd, li) ==
          IF x.k \notin SeqKinds THEN ErrV("expected-tuple-or-set")
          ELSE IF t.c = "tuple" /\ Len(x.v) # Len(t.p) THEN ErrV("tuple-arity")
          ELSE LET ys == Strict([i \in 1..Len(x.v) |-> Adapt(t.p[IF t.c = "tuple" THEN i ELSE 1], x.v[i], orig, sd, FALSE)])
-              IN Lift(ys, IF t.c = "set" THEN SetV(ys) ELSE TupleV(ys))
+                  once == SelectSeq(Strict([i \in 1..Len(ys) |-> i]), LAMBDA i : \A j \in 1..(i - 1) : ~PyEq(ys[j], ys[i]))   \* set(val): equal items once
+              IN Lift(ys, IF t.c = "set" THEN SetV(Strict([n \in 1..Len(once) |-> ys[once[n]]])) ELSE TupleV(ys))
     [] t.c = "dict" ->                                                          \* :902-934
          IF x.k # "dict" THEN ErrV("expected-dict")
          ELSE LET ks == Strict([i \in 1..Len(x.v) |->
